@@ -529,6 +529,7 @@ func vcMut(prop int, k int, c tmplCfg, record int) {
 		m.checkC03(k)
 	case propC16:
 		m.checkNumbers("C16 step")
+		m.checkMine()
 	}
 	vReach("end")
 }
@@ -542,11 +543,20 @@ var cfgLinkLate = tmplCfg{outputs: 1, hidden: 1, genes: 2, traits: 1, params: 1,
 // 15 genes: the branch of mutateAddNode that picks the gene to split uniformly at random (genomes of >= 15 genes)
 var cfgLarge = tmplCfg{outputs: 2, hidden: 2, genes: 15, traits: 1, params: 1, symRecur: false, symEnable: false,
 	links: [][2]int{{0, 2}, {0, 3}, {0, 4}, {0, 5}, {1, 2}, {2, 4}, {3, 5}, {2, 5}, {4, 2}, {4, 3}, {4, 5}, {5, 2}, {5, 3}, {5, 4}, {4, 4}}}
+
+// node ids with a gap below the hidden node: a re-used add-node record may name a node id that has to be inserted
+// in the middle of the node list
+var cfgGap = tmplCfg{outputs: 1, hidden: 1, genes: 3, traits: 1, params: 1, fixedBase: true, symRecur: false, symEnable: true, hiddenGap: true}
+
+// 15 genes with symbolic enabled flags: the uniform-choice branch when its tries land on genes that cannot be split
+var cfgLargeFlags = tmplCfg{outputs: 2, hidden: 2, genes: 15, traits: 1, params: 1, symRecur: false, symEnable: true,
+	links: cfgLarge.links}
 var cfgTiny = tmplCfg{outputs: 1, hidden: 0, genes: 2, traits: 1, params: 1, fixedBase: true, symRecur: false, symEnable: true}
 var cfgTwoTraits = tmplCfg{outputs: 1, hidden: 1, genes: 3, traits: 2, params: 1, fixedBase: true, symRecur: false, symEnable: true}
 
-func VC01_AddNode() { vcMut(propC01, mutAddNode, cfgSmall, vChoice("record", 2)) }
-func VC01_AddLink() { vcMut(propC01, mutAddLink, cfgLink, vChoice("record", 2)) }
+func VC01_AddNode()     { vcMut(propC01, mutAddNode, cfgSmall, vChoice("record", 2)) }
+func VC01_AddNode_Gap() { vcMut(propC01, mutAddNode, cfgGap, 1) }
+func VC01_AddLink()     { vcMut(propC01, mutAddLink, cfgLink, vChoice("record", 2)) }
 func VC01_AddLink_Thorough() {
 	tNewLinkTries = 2
 	vcMut(propC01, mutAddLink, cfgSmall, vChoice("record", 2))
@@ -581,6 +591,12 @@ func VC03_ConnectSensors()  { vcMut(propC03, mutConnectSensors, cfgSensors, vCho
 func VC03_ConnectSensors2() { vcMut(propC03, mutConnectSensors, cfgSensors2, vChoice("record", 2)) }
 func VC03_AddLinkLate()     { vcMut(propC03, mutAddLink, cfgLinkLate, vChoice("record", 2)) }
 
+// all tries of the uniform-choice branch draw the same gene (stated bound): reaches the exhaustion of its 20 tries
+func VC05_AddNode_LargeExhaust() {
+	vRandSameInts(true)
+	vcMut(propC05, mutAddNode, cfgLargeFlags, 0)
+	vRandSameInts(false)
+}
 func VC01_AddNode_Large() { vcMut(propC01, mutAddNode, cfgLarge, 0) }
 func VC05_AddNode_Large() { vcMut(propC05, mutAddNode, cfgLarge, 0) }
 func VC03_AddNode_Large() { vcMut(propC03, mutAddNode, cfgLarge, 0) }
